@@ -70,6 +70,12 @@ struct ItemResp {
     signature: String,
     shape: Shape,
     src_sha_fnv: String,
+    /// syntactic write set: fields f with `self.f` assigned, mutably borrowed, or the receiver of a
+    /// method not known to take `&self`
+    self_writes: Vec<String>,
+    self_reads: Vec<String>,
+    /// methods called directly on `self`
+    self_calls: Vec<String>,
 }
 
 #[derive(Serialize, Default, Clone)]
@@ -244,7 +250,8 @@ fn find_item<'a>(items: &'a [syn::Item], path: &str) -> Result<Found<'a>, Lost> 
                     match (trait_name, &this_trait) {
                         (Some(t), Some(tt)) if t == tt => {}
                         (Some(_), _) => continue,
-                        (None, _) => {}
+                        (None, Some(_)) => continue, // a bare "impl T::f" means the inherent impl
+                        (None, None) => {}
                     }
                     match meth {
                         None => hits.push(Found::Item(it)),
@@ -343,6 +350,99 @@ fn block_anchor(b: &syn::Block, segs: &[&str], whole: &str) -> Result<usize, Los
             }
         }
         _ => lost(format!("bad anchor {whole}")),
+    }
+}
+
+// ---------------------------------------------------------------------------
+// syntactic frame analysis: which fields of `self` can a function write?
+
+const IMMUTABLE_METHODS: &[&str] = &[
+    "iter", "len", "is_empty", "get", "contains", "iter_row", "iter_col", "iter_all", "num_rows", "num_cols",
+    "row_weight", "col_weight", "clone", "as_ref", "borrow", "first", "last", "to_vec", "to_owned", "as_slice",
+    // `&self` methods of the DecoderArithmetic trait
+    "llr_hard_decision", "var_llr_to_llr", "llr_to_var_llr", "llr_to_var_message", "input_llr_quantize",
+    "eq", "ne", "cmp", "partial_cmp", "into", "copied", "cloned",
+];
+
+#[derive(Default)]
+struct Frame {
+    writes: std::collections::BTreeSet<String>,
+    reads: std::collections::BTreeSet<String>,
+    calls: std::collections::BTreeSet<String>,
+}
+
+/// if `e` is a place expression rooted at `self.<field>`, return the field; `Some("")` for `self` itself
+fn self_root(e: &syn::Expr) -> Option<String> {
+    match e {
+        syn::Expr::Path(p) if p.path.is_ident("self") => Some(String::new()),
+        syn::Expr::Field(f) => {
+            let base = self_root(&f.base)?;
+            if base.is_empty() {
+                match &f.member {
+                    syn::Member::Named(id) => Some(id.to_string()),
+                    syn::Member::Unnamed(i) => Some(i.index.to_string()),
+                }
+            } else {
+                Some(base)
+            }
+        }
+        syn::Expr::Index(i) => self_root(&i.expr),
+        syn::Expr::Paren(p) => self_root(&p.expr),
+        syn::Expr::Unary(u) if matches!(u.op, syn::UnOp::Deref(_)) => self_root(&u.expr),
+        syn::Expr::Reference(r) => self_root(&r.expr),
+        _ => None,
+    }
+}
+
+impl<'a> Visit<'a> for Frame {
+    fn visit_expr(&mut self, e: &'a syn::Expr) {
+        match e {
+            syn::Expr::Assign(a) => {
+                if let Some(f) = self_root(&a.left) {
+                    self.writes.insert(if f.is_empty() { "*".into() } else { f });
+                }
+            }
+            syn::Expr::Binary(b) => {
+                use syn::BinOp::*;
+                if matches!(b.op, AddAssign(_) | SubAssign(_) | MulAssign(_) | DivAssign(_) | RemAssign(_) | BitXorAssign(_)
+                    | BitAndAssign(_) | BitOrAssign(_) | ShlAssign(_) | ShrAssign(_)) {
+                    if let Some(f) = self_root(&b.left) {
+                        self.writes.insert(if f.is_empty() { "*".into() } else { f });
+                    }
+                }
+            }
+            syn::Expr::Reference(r) => {
+                if let Some(f) = self_root(&r.expr) {
+                    let f = if f.is_empty() { "*".to_string() } else { f };
+                    if r.mutability.is_some() {
+                        self.writes.insert(f);
+                    } else {
+                        self.reads.insert(f);
+                    }
+                }
+            }
+            syn::Expr::MethodCall(m) => {
+                if let Some(f) = self_root(&m.receiver) {
+                    let name = m.method.to_string();
+                    if f.is_empty() {
+                        self.calls.insert(name);
+                    } else if IMMUTABLE_METHODS.contains(&name.as_str()) {
+                        self.reads.insert(f);
+                    } else {
+                        self.writes.insert(f);
+                    }
+                }
+            }
+            syn::Expr::Field(_) => {
+                if let Some(f) = self_root(e) {
+                    if !f.is_empty() {
+                        self.reads.insert(f);
+                    }
+                }
+            }
+            _ => {}
+        }
+        syn::visit::visit_expr(self, e);
     }
 }
 
@@ -809,7 +909,7 @@ fn process(src: &str, file: &syn::File, req: &ItemReq) -> Result<ItemResp, Lost>
     let mut shape = Shape::default();
     let mode = req.mode.as_deref().unwrap_or("verbatim");
     let (start, end, signature);
-    match found {
+    match &found {
         Found::ImplFn(_, f) => {
             let (s, e) = br(f.span());
             start = s;
@@ -971,6 +1071,17 @@ fn process(src: &str, file: &syn::File, req: &ItemReq) -> Result<ItemResp, Lost>
             }
         }
     }
+    let mut frame = Frame::default();
+    match &found {
+        Found::ImplFn(_, f) => frame.visit_block(&f.block),
+        Found::TraitFn(_, f) => {
+            if let Some(b) = &f.default {
+                frame.visit_block(b)
+            }
+        }
+        Found::Item(syn::Item::Fn(f)) => frame.visit_block(&f.block),
+        _ => {}
+    }
     if let Some(exp) = &req.expect_sig {
         if norm_ws(exp) != signature {
             return lost(format!(
@@ -993,6 +1104,9 @@ fn process(src: &str, file: &syn::File, req: &ItemReq) -> Result<ItemResp, Lost>
             signature,
             shape,
             src_sha_fnv: fnv(&src[start..end]),
+            self_writes: frame.writes.into_iter().collect(),
+            self_reads: frame.reads.into_iter().collect(),
+            self_calls: frame.calls.into_iter().collect(),
         });
     }
     let (text, linemap, linelabel) = apply(src, start, end, &edits)?;
@@ -1008,6 +1122,9 @@ fn process(src: &str, file: &syn::File, req: &ItemReq) -> Result<ItemResp, Lost>
         signature,
         shape,
         src_sha_fnv: fnv(&src[start..end]),
+        self_writes: frame.writes.into_iter().collect(),
+        self_reads: frame.reads.into_iter().collect(),
+        self_calls: frame.calls.into_iter().collect(),
     })
 }
 
